@@ -195,6 +195,32 @@ CHECKS = {
         technique="Coq proof (lia + list induction) + source-to-Coq "
                   "translation with proved equality to the model + "
                   "vm_compute correspondence"),
+    "C08": dict(
+        text="Theorems over the model of FieldStorageParser (multipart): "
+             "for EVERY reader satisfying the line-reader contract (proved "
+             "for io.BytesIO.readline and for the caching reader with any "
+             "size), read_lines_to_outerboundary returns exactly the content "
+             "before the delimiter for every content none of whose lines is "
+             "a delimiter line (incl. near copies, CR/LF runs, the 64 KiB "
+             "line cut between CR and LF), with exact bytes_read and reader "
+             "position; the property's own hypothesis implies that side "
+             "condition; parse(encode(parts)) returns the parts in order "
+             "with names, filenames, media types and byte-exact contents for "
+             "every good reader, with/without final CRLF and Content-Length "
+             "(_partial: header codec round trip is a decidable hypothesis, "
+             "refuted for a name ending in a backslash); two good readers "
+             "agree; ASCII text exact under any cut. Correspondence: real "
+             "parser on random RFC 7578 bodies through BytesIO and the real "
+             "CachedInput at every block size; monitor decode(encode(parts)) "
+             "with factory-call accounting.",
+        design="7/C08",
+        note="email.feedparser, tempfile, io and codecs trusted; nested "
+             "multipart / urlencoded parts unmodelled (reported as such); "
+             "text values compared bytewise in the round-trip theorem; known "
+             "findings param-backslash-before-next-param and "
+             "text-field-multibyte-at-64k-cut.",
+        technique="Coq proof (induction over reader lines with a three-phase "
+                  "invariant) + vm_compute correspondence"),
     "C09": dict(
         text="Theorems over the model of CachedInput.read/readline (loop "
              "with explicit fuel), for all bodies, declared lengths, block "
